@@ -191,7 +191,7 @@ class BatchBase(futures.FutureBase):
             debug.write("No items.", indent + 1)
 
     def to_str(self):
-        return str(self)
+        return debug.str(self, truncate=False)
 
     def dump_perf_stats(self, time_taken):
         self._total_time = time_taken
@@ -234,7 +234,7 @@ class BatchItemBase(futures.FutureBase):
             self.batch.flush()
 
     def to_str(self):
-        return "%06d.%s" % (self._id, str(self))
+        return "%06d.%s" % (self._id, debug.str(self, truncate=False))
 
 
 class DebugBatchItem(BatchItemBase):
